@@ -189,7 +189,10 @@ class TcpConnection():
                 tcp_connection.debug(f"[Socket-{self.sock_id}] Just sent "\
                                      f"{sent} bytes in _send_buffer")
             
-            except BlockingIOError:
+            except OSError:
+                #: Would block, or the peer has reset the connection: either
+                #: way the connection is given up (the state machine sees the
+                #: release signal), rather than the thread dying silently.
                 tcp_connection.exception(f"[Socket-{self.sock_id}] An error "\
                                          f"has occurred")
 
@@ -329,7 +332,7 @@ class SctpConnection(TcpConnection):
                 tcp_connection.debug(f"[Socket-{self.sock_id}] Just sent "\
                                      f"{sent} bytes in _send_buffer")
 
-            except BlockingIOError:
+            except OSError:
                 tcp_connection.exception(f"[Socket-{self.sock_id}] An error "\
                                          f"has occurred")
 
